@@ -74,6 +74,25 @@ func runC12(c *core.Ctx) {
 	other, _ := otherState.JSON.ToJSON()
 	data, family := hostileJSON(r, valid, other)
 	c.Count("input:"+family, 1)
+	// floors count ATTEMPTS (what the workload did), never outcomes (what the
+	// implementation chose to do), so a correct variant cannot make a run inconclusive
+	if priorSize > 0 {
+		if family == "well-formed" || family == "other-state-output" {
+			c.Count("attempt:well-formed-over-content:"+kind, 1)
+		} else {
+			c.Count("attempt:hostile-over-content", 1)
+		}
+	}
+	if family == "element-replaced" {
+		c.Count("attempt:element-replaced", 1)
+	}
+	switch string(data) {
+	case "null", "[]", "{}":
+		c.Count("attempt:literal:"+string(data), 1)
+	}
+	if dupV {
+		c.Count("attempt:bidi-duplicate-values", 1)
+	}
 
 	before := d.Observe(true)
 	var bw []any
@@ -242,14 +261,14 @@ func init() {
 		Floors: func(tier string, m map[string]int64) []string {
 			f := &floorCheck{m: m}
 			for _, k := range dynKinds {
-				f.atLeast("success-over-content:"+k, 100)
+				f.atLeast("attempt:well-formed-over-content:"+k, 100)
 			}
-			f.atLeast("outcome:element-type-error", 1500)
-			f.atLeast("outcome:error-over-content", 3000)
+			f.atLeast("attempt:element-replaced", 1500)
+			f.atLeast("attempt:hostile-over-content", 3000)
 			for _, l := range []string{"null", "[]", "{}"} {
-				f.atLeast("continuation-after:"+l, 10)
+				f.atLeast("attempt:literal:"+l, 10)
 			}
-			f.atLeast("outcome:bidi-duplicate-values", 20)
+			f.atLeast("attempt:bidi-duplicate-values", 20)
 			return f.missing
 		},
 		Files: serFiles,
